@@ -256,6 +256,11 @@ func (s *LinearState) rem(ctx *Context, id string, lock bool) (bool, error) {
 
 func (s *LinearState) deleteDependencies(ctx *Context, id string) error {
 	Log(DEBUG, ctx, "LinearState.deleteDependencies", "id", id)
+	if IsVariable(id) {
+		// In the pattern below, such an id would be a variable,
+		// and everything that has a 'deleteWith' a dependent.
+		return nil
+	}
 	pattern := Map{
 		KW_DeleteWith: []string{id},
 	}
